@@ -60,7 +60,7 @@ def gen_cases(tier: str, seed: int) -> list[dict]:
                 for rep in range(reps):
                     cases.append({"kind": "seq", "variant": variant, "persistent": persistent, "order": order, "seed": seed * 100 + rep})
     chunks = 2 if tier == "quick" else 10
-    for pair in ("signal_runtask", "signal_startstage", "signal_signal"):
+    for pair in ("signal_runtask", "signal_startstage", "signal_signal", "signal_jump"):
         for persistent in (True, False):
             for c in range(chunks):
                 cases.append({"kind": "pair", "pair": pair, "persistent": persistent, "chunk": c, "chunks": chunks, "seed": seed, "sample": 150 if tier == "quick" else 3000})
@@ -278,7 +278,7 @@ def _prebuffered(case: dict) -> dict:
 def _cut(pair: str, persistent: bool):
     from ..world import World
 
-    spec = sus_spec(0)
+    spec = sus_spec(3 if pair == "signal_jump" else 0)
     w = World()
     try:
         w.submit(spec)
@@ -286,6 +286,16 @@ def _cut(pair: str, persistent: bool):
             rows = w.rows()
             st = w.snapshot_state()["stages"]
             wid = st["w"]["id"]
+            if pair == "signal_jump":
+                # the signal for the (not yet started) gate is handled while the JumpToStage that re-arms the gate
+                # with the rest of the loop's downstream is being applied
+                jmp = [r for r in rows if r["type"] == "JumpToStage"]
+                if jmp:
+                    w.signal("w", "go", {"id": "sA"}, persistent)
+                    sig = [r for r in w.rows() if r["type"] == "SignalStage"]
+                    path = os.path.join(il.env.scratch_dir(), f"cut-{os.getpid()}-{random.randrange(1 << 40)}.db")
+                    w.copy_db(path)
+                    return path, [sig[0]["id"], jmp[0]["id"]], [{"id": "sA", "persistent": persistent}]
             if not rows:
                 if pair == "signal_signal" and st["w"]["status"] == "SUSPENDED":
                     w.signal("w", "go", {"id": "sA"}, persistent)
